@@ -8,7 +8,9 @@ import (
 
 func ip(v int) *int { return &v }
 
-var kinds = []string{"http", "tcp", "sni", "grpc", "inetaf"}
+var kinds = []string{"http", "tcp", "sni", "grpc", "inetaf", "https"}
+
+func ppKind(k string) bool { return k == "http" || k == "https" || k == "tcp" || k == "sni" }
 
 // an end tick relative to the wait: 0 short (≤ wait/4), 1 long but finite (3..5 × wait), 2 never
 func genEnd(r *hx.Rand, wait, class int) *int {
@@ -45,6 +47,12 @@ func designed(r *hx.Rand, i, wait int) []SrvIn {
 		s := SrvIn{Kind: k, Work: []*int{genEnd(r, wait, 0), genEnd(r, wait, 0)}}
 		if k == "inetaf" {
 			s.HWork = []*int{genEnd(r, wait, 0)}
+		}
+		if ppKind(k) {
+			s.PP = r.Chance(1, 2) // the same listener behind the PROXY protocol
+		}
+		if r.Chance(1, 3) {
+			return []SrvIn{s, {Kind: "prom", Work: []*int{}}}
 		}
 		other := kinds[(i+1+r.Intn(len(kinds)-1))%len(kinds)]
 		if other == "tcp" || other == "sni" || other == "inetaf" || k == "tcp" || k == "sni" || k == "inetaf" {
@@ -99,7 +107,20 @@ func genScenario(r *hx.Rand, i int) interface{} {
 			in.Servers = append(in.Servers, s)
 			continue
 		}
-		if (s.Kind == "http" || s.Kind == "inetaf") && r.Chance(1, 3) {
+		if r.Chance(1, 40) { // the excluded point of no_accept_after_shutdown_begins_partial (recorded finding)
+			s.Work = []*int{}
+			s.Late = r.Range(20, wait)
+			in.Servers = append(in.Servers, s)
+			continue
+		}
+		if r.Chance(1, 10) {
+			in.Servers = append(in.Servers, SrvIn{Kind: "prom", Work: []*int{}})
+			continue
+		}
+		if ppKind(s.Kind) && r.Chance(1, 4) {
+			s.PP = true
+		}
+		if (s.Kind == "http" || s.Kind == "https" || s.Kind == "inetaf") && r.Chance(1, 3) {
 			s.WS = genWork(r, wait, 2)
 		}
 		s.Work = genWork(r, wait, 3)
